@@ -13,4 +13,6 @@ CONSTANTS
  Dev_RecurseDropsArch = FALSE
  Dev_LookupUidFirst = FALSE
  Dev_UidCollision = FALSE
+ BottomUp = FALSE
+ Dev_UidSubtreeUnchecked = FALSE
  MaxDel = 1
